@@ -70,6 +70,7 @@ def query_menu(ref, typ, segs):
         vals = [v for v in key_values(ref, typ, len(keys) - 1) if v != segs[-1] and v not in ref.alias]
         other = vals[0] if vals else "zz"
         out += [f"{k}={other}", f"{k}=*", f"{k}=~{other}", f"{k}={segs[-1]},{other}", f"{k}=>"]
+        out += [f"{k}= {other}", f"{k} = {other} "]        # blanks around a filter value are tolerated (documented spelling)
         k1 = keys[1]
         v1 = [v for v in key_values(ref, typ, 1) if v != segs[1]]
         out += [f"{k1}={v1[0] if v1 else 'zz'}", f"{k1}=bogus"]
